@@ -8,7 +8,7 @@
 (*   rt118x_rsa2048.dc (enclave, 1.0, 1647)                                           dck sig                    *)
 (*   sample_dac.bin / sample_dac_ecc.bin (104), sample_dac_lpc55s3x.bin (120)                                    *)
 (* The ASSUME at the end re-derives the five anchored lengths from the definitions.                              *)
-EXTENDS Naturals, Sequences
+EXTENDS Naturals, Sequences, FiniteSets
 
 Versions == {<<1, 0>>, <<1, 1>>, <<2, 0>>, <<2, 1>>, <<2, 2>>}
 Classes == {"classic", "ele1", "ele2"}
@@ -94,6 +94,33 @@ ShapesFit(v, n, used, lz, coord, shapes) ==
        /\ shapes.rot[used + 1] = (IF lz = "used" THEN coord ELSE "-")
        /\ IF lz = "other" THEN \E j \in (1..n) \ {used + 1} : shapes.rot[j] = coord /\ \A i \in (1..n) \ {used + 1, j} : shapes.rot[i] = "-"
           ELSE \A i \in (1..n) \ {used + 1} : shapes.rot[i] = "-"
+\* ---- the RoT key set is a LIST of slots
+\* "RoT key sets of 1..4 keys and each used index": credential, certificate block and SRK table have n SLOTS, and nothing stops the same
+\* key from filling several of them (one key in every slot of a part that wants four; a key kept in two slots while a third is rotated).
+\* Which slots share a key is the pattern pat, a restricted growth string: pat[1] = 0, pat[i] is at most one more than the largest value
+\* in front of it; pat[i] = pat[j] exactly when slots i and j hold the same key, and slot i holds key number pat[i] of the key pool.
+\* Patterns(n) is in bijection with the partitions of 1..n (lemma SlotPatternsArePartitions of DatGen).
+\* given = how a slot that repeats the key of an earlier slot names it: "path" - the very same file path once more, "copy" - another
+\* file (another path) that holds the same key; "-" when all slots differ.
+SlotMax(S) == CHOOSE m \in S : \A k \in S : k <= m
+RECURSIVE PatternsRec(_)
+PatternsRec(n) == IF n = 1 THEN {<<0>>}
+                  ELSE UNION {{Append(p, k) : k \in 0..(SlotMax({p[j] : j \in 1..(n - 1)}) + 1)} : p \in PatternsRec(n - 1)}
+PatternTable == [n \in 1..4 |-> PatternsRec(n)]           \* (a constant: TLC evaluates it once)
+Patterns(n) == PatternTable[n]
+AllDistinct(n) == [i \in 1..n |-> i - 1]
+Givens == {"-", "path", "copy"}
+ValidSlots(n, pat, given) == /\ n \in 1..4 /\ pat \in Patterns(n) /\ given \in Givens /\ ((pat = AllDistinct(n)) <=> (given = "-"))
+\* the pattern of ANY list of values: entries are numbered in the order of their first appearance, equal entries get the same number
+FirstAt(s, i) == CHOOSE j \in 1..i : s[j] = s[i] /\ \A k \in 1..(j - 1) : s[k] # s[i]
+PatternOf(s) == [i \in 1..Len(s) |-> Cardinality({s[j] : j \in 1..(FirstAt(s, i) - 1)})]
+\* the first slot (0-based) that holds the key of slot `used`; the blocks of a pattern
+FirstSlot(pat, used) == FirstAt(pat, used + 1) - 1
+BlocksOf(p) == {{j \in 1..Len(p) : p[j] = p[i]} : i \in 1..Len(p)}
+\* the files a run really used fit the case: slots = [keys |-> <<fingerprint of the key the file of slot i holds>>, paths |-> <<its path>>]
+SlotsFit(n, pat, given, slots) == /\ Len(slots.keys) = n /\ Len(slots.paths) = n
+                                  /\ PatternOf(slots.keys) = pat
+                                  /\ PatternOf(slots.paths) = (IF given = "path" THEN pat ELSE AllDistinct(n))
 \* the root-of-trust hash clause needs the image side to define a value: it does not for P-521 (no certificate block takes it)
 RotHashDefined(v) == v # <<2, 2>>
 
